@@ -883,6 +883,20 @@ func visitorFacts(repo string, w *strings.Builder) error {
 	fmt.Fprintf(w, "def unresolvedPushes : List String := %s\n", leanStrList(x.unresolved))
 	fmt.Fprintf(w, "/-- guard atoms: functions of a rule node's direct children. `tok:k` a terminal (or error) child of token type k exists (GetToken/GetTokens);\n`rule:r` a child of rule r exists; `anylit` newTokenLiteralIterator(node).HasTokens(): a *TerminalNodeImpl child whose TrimSpace'd text is non-empty -/\n")
 	fmt.Fprintf(w, "def atoms : List String := %s\n", leanStrList(atoms))
+	var codes []string
+	for _, a := range atoms {
+		switch {
+		case a == "anylit":
+			codes = append(codes, "(2, 0)")
+		case strings.HasPrefix(a, "tok:"):
+			codes = append(codes, "(0, "+a[4:]+")")
+		case strings.HasPrefix(a, "rule:"):
+			codes = append(codes, "(1, "+a[5:]+")")
+		default:
+			codes = append(codes, "(3, 0)")
+		}
+	}
+	fmt.Fprintf(w, "/-- the same atoms as (kind, argument): (0,k) token k, (1,r) rule child r, (2,_) non-blank terminal, (3,_) opaque -/\ndef atomCodes : List (Nat × Nat) := [%s]\n", strings.Join(codes, ", "))
 	fmt.Fprintf(w, "def opaqueGuards : List String := %s\n", leanStrList(opaque))
 	for _, n := range []string{"Enter", "Exit", "EnterEveryRule", "ExitEveryRule", "VisitTerminal", "VisitErrorNode"} {
 		fmt.Fprintf(w, "def src%s : String := %s\n", n, leanStr(protoSrc(n)))
